@@ -1,4 +1,5 @@
 pub mod c01;
+pub mod c02;
 pub mod c03;
 pub mod c09;
 pub mod c18;
@@ -10,6 +11,7 @@ use crate::Prop;
 pub fn by_id(id: &str) -> Option<Box<dyn Prop>> {
     match id {
         "C01" => Some(Box::new(c01::C01::default())),
+        "C02" => Some(Box::new(c02::C02::default())),
         "C03" => Some(Box::new(c03::C03::default())),
         "C09" => Some(Box::new(c09::C09::default())),
         "C18" => Some(Box::new(c18::C18::default())),
